@@ -22,22 +22,30 @@ CONSTANTS
     ResumeAllEdges,        \* TRUE (since 8932fc2): the response walk resumes at every connection of the answering processor,
                            \*                  also when the response direction has no stream entry point
                            \* FALSE (before): only at edges[0]; skipped for a rootless response direction; from the root when no edge
+    StartNodePerFlow,      \* TRUE (the code): only the flow that answered continues from the answering processor, every other
+                           \*       user flow of the transaction walks its response direction from its own entry point
+                           \* FALSE (a mutation): the start node is kept for the flows visited after the answering flow
     StepCap                \* exploration cap on processor executions (> every Bound)
 
 VARIABLES
     cfg,      \* the configuration
-    fname,    \* the user flow that handles the transaction
+    order,    \* the user flows selected for the transaction, in the order the engine runs them on a request
+    bs,       \* bs[k] = BuildFlow(cfg, flow order[k])
     txdir,    \* "req" | "res": kind of transaction
-    b,        \* BuildFlow(cfg, flow)
     sdir,     \* current stream type (switches to "res" for the early-response walk)
+    pos,      \* index in `order` of the flow being walked (requests: 1..n, responses: n..1)
+    gpos,     \* index of the flow whose graph the current walk uses (= pos in the code as it is)
     stack,    \* activation frames of stream.ExecuteFlow
-    exec,     \* executed processors <<[flow, key, dir, out]>>
+    exec,     \* executed processors <<[flow, sid, key, dir, out]>>
     steps,
-    sc,       \* short-circuit node handed to executeReq ("" = none)
+    sc,       \* short-circuit node returned by the walk in progress ("" = none)
+    scn,      \* the processor that answered the request ("" = none) and
+    scpos,    \* the index of its flow (0 = none): streams.shortCircuitOperation
     phase,    \* "start" | "walk" | "resume" | "done"
     outcome   \* "" | "ok" | "error"
 
-vars == <<cfg, fname, txdir, b, sdir, stack, exec, steps, sc, phase, outcome>>
+vars == <<cfg, order, bs, txdir, sdir, pos, gpos, stack, exec, steps, sc, scn, scpos, phase, outcome>>
+fixed == <<cfg, order, bs, txdir>>
 
 RunOuts(kind, dir) ==
     CASE kind = "Cond" -> {"hit", "miss"}
@@ -46,28 +54,55 @@ RunOuts(kind, dir) ==
       [] kind = "Lim" -> IF dir = "req" THEN {"below_limit", "above_limit"} ELSE {}
       [] OTHER -> {}
 
-D(dir) == IF dir = "req" THEN b.req ELSE b.res
+G(k, dir) == IF dir = "req" THEN bs[k].req ELSE bs[k].res
 Frame(n) == [n |-> n, i |-> 0, out |-> "", sc |-> ""]
 
-\* constant-level tables (TLC evaluates them once): the accepted configurations and their built graphs
+\* constant-level tables (TLC evaluates them once): the accepted configurations, the flows that share a filter URL
+\* (they are selected together; both engine orders are explored) and their built graphs
+RECURSIVE OrderPerms(_)
+OrderPerms(s) == IF Len(s) <= 1 THEN {s}
+                 ELSE UNION {{<<s[i]>> \o p : p \in OrderPerms([j \in 1..(Len(s) - 1) |-> IF j < i THEN s[j] ELSE s[j + 1]])} : i \in 1..Len(s)}
+NamesAt(g, u) == LET RECURSIVE N(_)
+                     N(i) == IF i > Len(g.flows) THEN <<>>
+                             ELSE (IF g.flows[i].url = u THEN <<g.flows[i].name>> ELSE <<>>) \o N(i + 1)
+                 IN N(1)
 Accepted == {g \in Configs : Accepts(g) = "accepted"}
-Starts == UNION {{[cfg |-> g, fname |-> g.flows[i].name, b |-> BuildFlow(g, g.flows[i])] : i \in 1..Len(g.flows)} : g \in Accepted}
+Starts == UNION {UNION {{[cfg |-> g, order |-> o, bs |-> [k \in 1..Len(o) |-> BuildFlow(g, FlowOf(g, o[k]))]] :
+                             o \in OrderPerms(NamesAt(g, u))} : u \in {g.flows[i].url : i \in 1..Len(g.flows)}} : g \in Accepted}
 
 Init ==
-    /\ \E s \in Starts : cfg = s.cfg /\ fname = s.fname /\ b = s.b
+    /\ \E s \in Starts : cfg = s.cfg /\ order = s.order /\ bs = s.bs
     /\ txdir \in {"req", "res"}
     /\ sdir = txdir
-    /\ stack = <<>> /\ exec = <<>> /\ steps = 0 /\ sc = "" /\ phase = "start" /\ outcome = ""
+    /\ pos = (IF txdir = "req" THEN 1 ELSE Len(order)) /\ gpos = pos
+    /\ stack = <<>> /\ exec = <<>> /\ steps = 0 /\ sc = "" /\ scn = "" /\ scpos = 0 /\ phase = "start" /\ outcome = ""
 
 Finish(o) == phase' = "done" /\ outcome' = o /\ stack' = <<>>
 
-\* streams.executeFlow without a start node: undefined direction or missing root => nothing runs
+\* streams.executeFlow for the flow at `pos`: undefined direction or missing root => nothing runs; after an early response
+\* the flow that answered continues from the response-side connections of the answering processor
 Start ==
     /\ phase = "start"
-    /\ IF ~Defined(D(sdir)) \/ D(sdir).root = ""
-       THEN Finish("ok") /\ UNCHANGED <<sc>>
-       ELSE stack' = <<Frame(D(sdir).root)>> /\ phase' = "walk" /\ UNCHANGED <<outcome, sc>>
-    /\ UNCHANGED <<cfg, fname, txdir, b, sdir, exec, steps>>
+    /\ LET resumeHere == sdir = "res" /\ scpos > 0 /\ (pos = scpos \/ (~StartNodePerFlow /\ pos < scpos))
+           own == G(pos, sdir)
+       IN IF resumeHere
+          THEN LET r == G(scpos, "res")
+                   es == EdgesOf(r, scn)
+                   targets == IF ResumeAllEdges
+                              THEN SelectSeq(es, LAMBDA e : e.t # "")
+                              ELSE IF Len(es) = 0 THEN <<[from |-> "", c |-> "", t |-> own.root]>>
+                              ELSE IF es[1].t = "" THEN <<>> ELSE <<es[1]>>
+               IN IF ~Defined(own) \/ (~ResumeAllEdges /\ own.root = "") \/ Len(targets) = 0
+                  THEN stack' = <<>> /\ phase' = "resume" /\ gpos' = pos
+                  ELSE \* frames are pushed in reverse so that the first target runs first; each returns to nobody
+                       /\ stack' = [k \in 1..Len(targets) |-> Frame(targets[Len(targets) + 1 - k].t)]
+                       /\ phase' = "resume"
+                       /\ gpos' = (IF ResumeAllEdges \/ Len(es) > 0 THEN scpos ELSE pos)
+          ELSE IF ~Defined(own) \/ own.root = ""
+               THEN stack' = <<>> /\ phase' = "walk" /\ gpos' = pos
+               ELSE stack' = <<Frame(own.root)>> /\ phase' = "walk" /\ gpos' = pos
+    /\ sc' = ""
+    /\ UNCHANGED <<fixed, sdir, pos, exec, steps, scn, scpos, outcome>>
 
 \* the top activation returns `ret` to its caller
 Return(ret) ==
@@ -87,21 +122,21 @@ ProcStep ==
        /\ IF RunOuts(kind, sdir) = {}
           THEN /\ Finish("error") /\ UNCHANGED <<exec, steps, sc>>        \* Execute returned an error
           ELSE \E o \in RunOuts(kind, sdir) :
-               /\ exec' = Append(exec, [flow |-> fname, sid |-> "", key |-> top.n, dir |-> sdir, out |-> o])
+               /\ exec' = Append(exec, [flow |-> order[pos], sid |-> "", key |-> top.n, dir |-> sdir, out |-> o])
                /\ steps' = steps + 1
                /\ IF kind = "Gen" /\ sdir = "req"
-                  THEN IF HasNode(b.res, top.n)
+                  THEN IF HasNode(bs[pos].res, top.n)
                        THEN Return(top.n) /\ UNCHANGED <<phase, outcome>>
                        ELSE Finish("error") /\ UNCHANGED sc                  \* failed to get response node
                   ELSE /\ stack' = [stack EXCEPT ![Len(stack)] = [@ EXCEPT !.i = 1, !.out = o]]
                        /\ UNCHANGED <<sc, phase, outcome>>
-    /\ UNCHANGED <<cfg, fname, txdir, b, sdir>>
+    /\ UNCHANGED <<fixed, sdir, pos, gpos, scn, scpos>>
 
 \* one iteration of `for _, edge := range node.GetEdges()`
 EdgeStep ==
     /\ phase \in {"walk", "resume"} /\ stack # <<>>
     /\ LET top == stack[Len(stack)]
-           es == EdgesOf(D(sdir), top.n) IN
+           es == EdgesOf(G(gpos, sdir), top.n) IN
        /\ top.i > 0
        /\ IF top.i > Len(es) \/ (StopAfterAnswer /\ top.sc # "")
           THEN Return(top.sc)
@@ -109,29 +144,23 @@ EdgeStep ==
                IF e.t = "" \/ e.c # top.out
                THEN stack' = [stack EXCEPT ![Len(stack)].i = top.i + 1] /\ UNCHANGED sc
                ELSE stack' = Append([stack EXCEPT ![Len(stack)].i = top.i + 1], Frame(e.t)) /\ UNCHANGED sc
-    /\ UNCHANGED <<cfg, fname, txdir, b, sdir, exec, steps, phase, outcome>>
+    /\ UNCHANGED <<fixed, sdir, pos, gpos, exec, steps, scn, scpos, phase, outcome>>
 
-\* the walk of the current stream type is over (executeReq / executeRes epilogue)
+\* the walk of one flow is over: the loops of executeReq / executeRes over the user flows
 WalkOver ==
     /\ phase \in {"walk", "resume"} /\ stack = <<>>
-    /\ IF phase = "walk" /\ sdir = "req" /\ sc # ""
-       THEN \* early response: executeRes(.., shortCircuit) -> executeFlow(flow, startFromNode = sc)
-            LET r == b.res
-                es == EdgesOf(r, sc)
-                targets == IF ResumeAllEdges
-                           THEN SelectSeq(es, LAMBDA e : e.t # "")
-                           ELSE IF Len(es) = 0 THEN <<[from |-> "", c |-> "", t |-> r.root]>>
-                           ELSE IF es[1].t = "" THEN <<>> ELSE <<es[1]>>
-            IN /\ sdir' = "res"
-               /\ IF ~Defined(r) \/ (~ResumeAllEdges /\ r.root = "") \/ Len(targets) = 0
-                  THEN Finish("ok") /\ UNCHANGED sc
-                  ELSE /\ phase' = "resume"
-                       \* frames are pushed in reverse so that the first target runs first; each returns to nobody
-                       /\ stack' = [k \in 1..Len(targets) |-> Frame(targets[Len(targets) + 1 - k].t)]
-                       /\ sc' = ""
-                       /\ UNCHANGED outcome
-       ELSE Finish("ok") /\ UNCHANGED <<sc, sdir>>
-    /\ UNCHANGED <<cfg, fname, txdir, b, exec, steps>>
+    /\ IF sdir = "req"
+       THEN IF sc # ""
+            THEN \* early response: the remaining flows are skipped on the request side; executeRes(.., shortCircuit)
+                 /\ scn' = sc /\ scpos' = pos /\ sdir' = "res" /\ pos' = Len(order) /\ phase' = "start"
+                 /\ UNCHANGED <<outcome, stack>>
+            ELSE IF pos < Len(order)
+                 THEN pos' = pos + 1 /\ phase' = "start" /\ UNCHANGED <<scn, scpos, sdir, outcome, stack>>
+                 ELSE Finish("ok") /\ UNCHANGED <<scn, scpos, sdir, pos>>
+       ELSE IF pos > 1
+            THEN pos' = pos - 1 /\ phase' = "start" /\ UNCHANGED <<scn, scpos, sdir, outcome, stack>>
+            ELSE Finish("ok") /\ UNCHANGED <<scn, scpos, sdir, pos>>
+    /\ UNCHANGED <<fixed, gpos, exec, steps, sc>>
 
 Next == Start \/ ProcStep \/ EdgeStep \/ WalkOver
 
@@ -140,12 +169,14 @@ Spec == Init /\ [][Next]_vars
 \* ---------------------------------------------------------------- properties
 Done == phase = "done"
 
+\* the verdict of the property on what the engine model executed
+Verdict == IF ~Done THEN "running"
+           ELSE IF Len(order) = 1 THEN TxVerdict(cfg, order[1], txdir, exec, <<>>, outcome)
+           ELSE MultiTxVerdict(cfg, order, txdir, exec, <<>>, outcome)
+
 \* C04: what the engine executed is a walk of the configured graph
-FollowsGraph == Done => TxVerdict(cfg, fname, txdir, exec, <<>>, outcome) = "ok"
+FollowsGraph == Done => Verdict = "ok"
 
 \* C05: an accepted configuration handles every transaction within the bound
 Safe == steps <= Bound(cfg)
-
-\* the verdict as a value, for witness classification
-Verdict == IF Done THEN TxVerdict(cfg, fname, txdir, exec, <<>>, outcome) ELSE "running"
 ================================================================================
